@@ -117,12 +117,12 @@ TrCtlRecv ==
     /\ flushedSet' = {}
     /\ UNCHANGED <<unconf, fullpos, pdiv, psteps, emptySeen, lastcb, mustfail>>
 
-\* the recording storage of chain i was asked to flush (a harness event of the storage backend): only while the
-\* controller handles a flush command
+\* the recording storage of chain i was asked to flush (a harness event of the storage backend).  While the
+\* controller handles a flush command it counts towards "the command reached every chain"; a flush at any other
+\* time (a chain flushing on its own) is not forbidden by anything and changes nothing here
 TrStFlush ==
     /\ IsEvent("st_flush")
-    /\ cpc.st = "handle" /\ cpc.cmd = "flush"
-    /\ flushedSet' = flushedSet \cup {R.i}
+    /\ flushedSet' = IF cpc.st = "handle" /\ cpc.cmd = "flush" THEN flushedSet \cup {R.i} ELSE flushedSet
     /\ UNCHANGED <<vars, unconf, fullpos, pdiv, psteps, emptySeen, snap, lastcb, mustfail>>
 
 \* the progress callback, called on the controller thread at start-up, whenever `rate` has
